@@ -16,7 +16,7 @@ from ..run import Case
 from ..stubs import StubSet
 
 PID = "C05"
-POSITIONS = ["param", "ctor", "result", "cattr", "iattr", "param-among-others"]
+POSITIONS = ["param", "ctor", "result", "cattr", "iattr", "param-among-others", "inherited"]
 
 REACH = [
     "MyPyAstVisitor.mypy_type_to_abstract_type",
@@ -200,6 +200,12 @@ def build_case(cid: str, items: list, opts: list) -> Case:
             # colour the next): position-only tuple, *args, keyword-only x, **kwargs
             name = f"q{i}"
             lines.append(f"def {name}(first: tuple[int, str], second: set[int] = None, /, *args: int, x: {src}, last: list[int, str] = None, **kwargs: str) -> None: ...\n\n")
+        elif pos == "inherited":
+            # a method of a private base class: the SAME type object is rendered once per public subclass
+            name = f"InhC{i}"
+            lines.append(f"class _InhBase{i}:\n    def m(self, x: {src}) -> None: ...\n\n\nclass InhA{i}(_InhBase{i}):\n    pass\n\n\nclass InhB{i}(_InhBase{i}):\n    pass\n\n\nclass {name}(_InhBase{i}):\n    pass\n\n")
+            for other in (f"InhA{i}", f"InhB{i}"):
+                gt.append({"name": other, "pos": pos, "term": term, "src": src})
         elif pos == "result":
             name = f"r{i}"
             lines.append(f"def {name}() -> {src}: ...\n\n")
@@ -283,7 +289,11 @@ def make_judge(chk: Check):
                 if term[0] != "tuple" and len(got) == 1:
                     got_nfs = got[0]
             else:
-                if pos == "param-among-others":
+                if pos == "inherited":
+                    ms = [m for m in d.members if m.kind == "fun" and m.pyname == "m"]
+                    ps = [p for p in (ms[0].params or []) if p.pyname == "x"] if len(ms) == 1 else []
+                    st = ps[0].type if len(ps) == 1 else None
+                elif pos == "param-among-others":
                     ps = [p for p in d.params or [] if p.pyname == "x"]
                     st = ps[0].type if len(ps) == 1 else None
                 elif pos in ("param", "ctor"):
